@@ -12,6 +12,12 @@ NOTE = ("Trusted base: go/types + go/packages (loading /repo's current working t
 
 # id -> (technique, level text, design section) ; absent ids go to not_applicable
 CLAIMED = {
+ "C02": ("static analysis: finite-domain decision tables of the three item comparators and the id comparators (SSA interpreter), comparator role table over all resolved call sites (value-origin analysis), guard-dominance on result/effect pairing in Put2/GetNode/DeleteNode",
+         "Necessary structural conditions of the set semantics decided on every call site and path; not an equivalence proof against a reference set.", "DESIGN.md §2 C02"),
+ "C08": ("static analysis: who-may-write + check-then-act rule on Snapshot.refCount (every write classified), guard-dominance on the decrement's own result, must-follow release pairing of iterator/snapshot references incl. the snapClosed idiom",
+         "The structural cause of the Open/Close race (conditional increment not being one atomic step) and the release pairing are decided on all paths; schedules are not explored.", "DESIGN.md §2 C08"),
+ "C09": ("static analysis: must-follow rule (every cursor move is followed by the visibility filter on all paths), comparator role table, freshness/ordering rule for Refresh, decision table of the filter",
+         "Necessary structural conditions of exact positioning decided on every path of the iterator methods.", "DESIGN.md §2 C09"),
  "C01": ("static analysis: finite-domain decision-table extraction of the visibility predicates (SSA interpreter over epoch orderings), guard-dominance on the collector hand-off, freshness/who-may-write analysis of item headers and payloads, must-precede ordering in NewSnapshot",
          "Necessary structural conditions of snapshot isolation decided on every path and call site of the resolved program (SSA + must-facts + VTA call graph). Not a proof of isolation over all schedules.", "DESIGN.md §2 C01"),
 }
